@@ -182,6 +182,7 @@ func init() {
 		ev["err"], ev["err2"] = "unset", "unset"
 		ev["nil_on_err"], ev["nil_on_err2"] = true, true
 		ev["spill"], ev["spill_clean"] = B(nil), true
+		ev["prefix_after"] = B(c.bytes("prefix"))
 		snapped := false
 		defer func() {
 			if snapped {
@@ -194,8 +195,15 @@ func init() {
 				ev["in_after"] = B(in)
 			}
 		}()
+		if c.boolean("dst_is_aad") { // the record idiom: header = additional data = dst, output goes behind it
+			dst = whole[:len(c.bytes("prefix"))]
+			aad = dst
+		}
 		out, err := a.Open(dst, nonce, in, aad)
 		ev["out"] = B(out)
+		if !inplace && whole != nil { // the bytes the caller already had in dst, after the call
+			ev["prefix_after"] = B(append([]byte(nil), whole[:len(c.bytes("prefix"))]...))
+		}
 		ev["nonce_after"], ev["aad_after"] = B(append([]byte(nil), nonce...)), B(append([]byte(nil), aad...))
 		if inplace {
 			ev["in_after"] = B(append([]byte(nil), ct...))
